@@ -8,7 +8,7 @@
    The proof reuses C08_exact_oracle (one multiplication / division of exact operands is the correctly rounded result:
    Flocq's Bmult_correct / Bdiv_correct), and checks by computation that the table F64_POW10 extracted from num.rs
    holds 10^0 .. 10^22 and POW10_64 (small_powers.rs) holds 10^0 .. 10^19. *)
-From Coq Require Import ZArith NArith Reals Lia List Bool.
+From Coq Require Import ZArith NArith Reals Lia Lra List Bool.
 From Flocq Require Import Core BinarySingleNaN.
 From SJ Require Import Base.Bytes Base.FloatB Gen.Tables Gen.LexTables Model.Read Model.Num Model.Lex.
 From SJ Require Import Proofs.FloatDefault Proofs.FloatOracle.
@@ -101,16 +101,24 @@ Proof.
   rewrite Z.pow_add_r by lia. rewrite Z.mul_assoc. reflexivity.
 Qed.
 
+Lemma Some_inj {A} (a b : A) : Some a = Some b -> a = b.
+Proof. intros H. injection H as H. exact H. Qed.
+
+Lemma f_cast_pow10_F64 (m : N) (n : Z) :
+  f_cast_pow10 F64 m n =
+  bits_of_b64 (if 0 <? n then Bmult mode_NE (b64_of_Z (Z.of_N m)) (b64_of_Z (nth (Z.to_nat (Z.abs n)) F64_POW10 0))
+               else Bdiv mode_NE (b64_of_Z (Z.of_N m)) (b64_of_Z (nth (Z.to_nat (Z.abs n)) F64_POW10 0))).
+Proof. reflexivity. Qed.
+
 (* ------------------------------------------------------------------ *)
 (** * the theorem *)
 Theorem lex_fast_correct : forall (m : N) (e : Z) (bits : N),
   fast_path F64 m e = Some bits -> bits = bits_of_b64 (rne_decimal (Z.of_N m) e).
 Proof.
   intros m e bits H. unfold fast_path in H.
-  cbn [EXP_LIMIT_MIN EXP_LIMIT_MAX MANTISSA_LIMIT MANTISSA_SIZE] in H.
-  change F64_EXP_LIMIT_MIN with (-22) in H. change F64_EXP_LIMIT_MAX with 22 in H.
-  change F64_MANTISSA_LIMIT with 15 in H. change F64_MANTISSA_SIZE with 52 in H.
-  change (Z.to_N (52 + 1)) with 53%N in H. change (22 + 15) with 37 in H.
+  change (EXP_LIMIT_MIN F64) with (-22) in H. change (EXP_LIMIT_MAX F64) with 22 in H.
+  change (MANTISSA_LIMIT F64) with 15 in H. change (Z.to_N (MANTISSA_SIZE F64 + 1)) with 53%N in H.
+  change (22 + 15) with 37 in H.
   destruct (N.eqb_spec m 0) as [Hm0|Hm0].
   { (* zero *) injection H as <-. subst m. reflexivity. }
   assert (Hmpos : (0 < m)%N) by lia.
@@ -119,11 +127,11 @@ Proof.
   assert (Hlt : Z.of_N m < 2 ^ 53) by (change (2 ^ 53) with (Z.of_N (2 ^ 53)); lia).
   destruct (Z.eqb_spec e 0) as [He0|He0].
   { (* exponent 0: the cast *)
-    injection H as <-. subst e. unfold f_cast. f_equal. apply cast_oracle. lia. }
+    apply Some_inj in H. subst bits. subst e. unfold f_cast. f_equal. apply cast_oracle. lia. }
   destruct ((-22 <=? e) && (e <=? 22)) eqn:Hr.
   { (* one multiplication or division *)
     apply andb_prop in Hr. destruct Hr as (Hr1 & Hr2). apply Z.leb_le in Hr1, Hr2.
-    injection H as <-. unfold f_cast_pow10. f_equal.
+    apply Some_inj in H. subst bits. rewrite f_cast_pow10_F64. f_equal.
     destruct (Z.ltb_spec 0 e) as [Hpos|Hneg].
     - rewrite Z.abs_eq by lia. rewrite F64_POW10_Z by lia. apply mul_pow10_oracle; [exact Hmpos|exact Hlt|lia].
     - rewrite Z.abs_neq by lia. rewrite F64_POW10_Z by lia. apply div_pow10_oracle; [exact Hmpos|exact Hlt|lia]. }
@@ -138,7 +146,7 @@ Proof.
   destruct (N.leb_spec two64N (m * Z.to_N (10 ^ sh))) as [Hov|Hov]; [discriminate H|].
   destruct (N.eqb_spec (N.shiftr (m * Z.to_N (10 ^ sh)) 53) 0) as [Hsh2|Hsh2]; cbn [negb] in H; [|discriminate H].
   apply shiftr_zero_lt in Hsh2.
-  injection H as <-. unfold f_cast_pow10. f_equal.
+  apply Some_inj in H. subst bits. rewrite f_cast_pow10_F64. f_equal.
   replace (0 <? 22) with true by reflexivity. change (Z.abs 22) with 22. rewrite F64_POW10_Z by lia.
   set (v := (m * Z.to_N (10 ^ sh))%N) in *.
   assert (Hv : Z.of_N v = Z.of_N m * 10 ^ sh) by (unfold v; rewrite N2Z.inj_mul, Z2N.id by lia; reflexivity).
